@@ -209,6 +209,7 @@ class C15(CoordMixin, Prop):
                 started = {}
                 given = {}
                 boosted = False
+            boosted_before = boosted
             if k in ("boost", "maint", "exec", "cell"):
                 boosted = True      # priority inheritance may have raised priorities (exec / cell: run_maintenance from inside)
             if k == "setwd" and len(t) == 5:
@@ -266,19 +267,21 @@ class C15(CoordMixin, Prop):
                 killed = {a for a, _ in info.get("events", [])}
                 members = [a for a in D["agents"] if a in prev["active"]]
                 if members and strategy in ("priority", "oldest"):
-                    # priorities as the watchdog saw them (maint boosts first: read them from the boosted contexts
-                    # is impossible afterwards, so the rule is checked for plain `watchdog` only)
                     # "oldest" = started first: the start times are the harness's own record of the history (a context's
                     # created_at is only what the code remembers of it); boosts do not touch them, so `maint` is judged too
-                    if k == "watchdog" or strategy == "oldest":
-                        keyf = (lambda a: prev["active"][a]["prio"] if boosted else given.get(a, prev["active"][a]["prio"])) \
-                            if strategy == "priority" else \
-                            (lambda a: started.get(a, prev["active"][a]["created"]))
-                        best = min(keyf(a) for a in members)
-                        if not any(a in killed and keyf(a) == best for a in members):
-                            out.append(Violation("victim_is_lowest_priority_or_oldest",
-                                                 f"a member of {members} with {strategy} key {best} is terminated",
-                                                 f"events={info.get('events')}", idx))
+                    # `maint` boosts first and says whom it boosted to what (the returned priority_boosts): the priorities
+                    # the watchdog then saw are those, the others' are unchanged
+                    raised = dict(info.get("boosts", [])) if k == "maint" else {}
+                    was_boosted = boosted and not (k == "maint" and not boosted_before)
+                    keyf = (lambda a: raised.get(a, prev["active"][a]["prio"] if was_boosted
+                                                 else given.get(a, prev["active"][a]["prio"]))) \
+                        if strategy == "priority" else \
+                        (lambda a: started.get(a, prev["active"][a]["created"]))
+                    best = min(keyf(a) for a in members)
+                    if not any(a in killed and keyf(a) == best for a in members):
+                        out.append(Violation("victim_is_lowest_priority_or_oldest",
+                                             f"a member of {members} with {strategy} key {best} is terminated",
+                                             f"events={info.get('events')}", idx))
                     victims = [a for a, why in info.get("events", []) if why == "deadlock"]
                     for v in victims:
                         if v not in D["agents"]:
